@@ -87,6 +87,33 @@ def oracle(ops, resp):
     return None
 
 
+def run_hammer(ctx, runs):
+    """Back-to-back invocations of ONE frugal.Method (the reflective layer every generated client method, processor function
+    and subscriber callback goes through, with 0..3 pass-through middlewares) from 16 goroutines, each with an FContext of
+    its own: the handler must see the context of its own invocation, the caller its handler's result and response header."""
+    import os
+    import subprocess
+    tot = wrong = 0
+    for i in range(runs):
+        q = {"goroutines": 16, "calls": 12000, "middleware": i % 4}
+        try:
+            p = subprocess.run([os.path.join(vlib.BIN, "vh_ctx"), "hammer"], input=json.dumps(q).encode(), capture_output=True, timeout=300)
+            r = json.loads(p.stdout.decode() or "{}")
+        except (subprocess.TimeoutExpired, ValueError) as e:
+            r = {"panic": "hammer run failed: %s" % e}
+        if not r.get("invocations") and not r.get("panic"):
+            r["panic"] = "no result: " + p.stderr.decode("utf8", "replace")[-400:]
+        tot += r.get("invocations", 0)
+        if r.get("panic") or r.get("wrong_context") or r.get("wrong_result"):
+            wrong += 1
+            ctx.violation("C09 oracle (one Method under concurrent invocations): %s" % (
+                r.get("panic") or "%d of %d handler invocations saw the FContext of another invocation, %d callers got another "
+                "call's result or miss their handler's response header; first: %s" % (
+                    r.get("wrong_context", 0), r.get("invocations", 0), r.get("wrong_result", 0), r.get("first"))),
+                {"request": q, "observed": r})
+    return {"runs": runs, "invocations": tot, "failed_runs": wrong}
+
+
 def run_concurrent(ctx, nsessions):
     """K two-way calls in flight at once through one client over one adapter transport: every caller's FContext comes
     back with ITS handler's response headers and ITS correlation id, and its handler saw ITS request headers."""
@@ -189,12 +216,14 @@ def run(ctx, br):
             ctx.violation("C09 correspondence: model and implementation disagree on a call", rep)
     # several calls in flight at once over ONE adapter transport (TCP, FSimpleServer, FBaseProcessor): direct oracle only
     conc_stats = run_concurrent(ctx, 25 if quick else 400)
+    hammer_stats = run_hammer(ctx, 4 if quick else 40)
     nhdr = [sum(1 for o in s if o["k"] == 2) for s in seqs]
     ctx.assumptions += ["context level: the header block written and read by the real FProtocol over a memory transport; the same bytes "
                         "travel on every transport and protocol (C04), end-to-end calls through generated code are C03",
                         "header block below 2^31 bytes"]
     return {
         "concurrent": conc_stats,
+        "method_hammer": hammer_stats,
         "evaluations": len(seqs) + conc_stats["calls"],
         "distinct_nontrivial": len({json.dumps(s) for s, k in zip(seqs, nhdr) if k >= 1}),
         "rule": "seeded calls: caller context with 0..5 user request headers (some sequences also write reserved names), correlation id, "
